@@ -490,9 +490,11 @@ def realize(node, spec, rz=None):
     elif k == "indexed":
         c = realize(node, spec["content"], rz)
         h = node.indexed(idx_handle(spec["index"], spec["n"], "index"), c, spec["option"])
+        if spec.get("param"):
+            node.setparam(h, "__array__", '"%s"' % spec["param"])
     elif k == "bytemasked":
         c = realize(node, spec["content"], rz)
-        h = node.bytemasked(idx_handle(spec["mask"], spec["n"], "mask"), c, spec["valid_when"])
+        h = node.bytemasked(idx_handle(spec["mask"], spec.get("mask_len", spec["n"]), "mask"), c, spec["valid_when"])
     elif k == "bitmasked":
         c = realize(node, spec["content"], rz)
         h = node.bitmasked(idx_handle(spec["mask"], (spec["n"] + 7) // 8, "mask"), c, spec["valid_when"], spec["n"], spec["lsb"])
@@ -699,6 +701,66 @@ def insert_virtuals(r, spec, nmax, declare_form, declare_length, prefix="k"):
             root["declare_form"] = False
             root["wrong"] = None
     return root
+
+
+def make_invalid(r, spec):
+    """a copy of spec made structurally inconsistent in one place (what a hand-built or damaged layout looks like); returns
+    (spec, kind) or None. Only check / print / convert are promised for such arrays."""
+    import copy
+    d = copy.deepcopy(spec)
+    sites = []
+
+    def walk(sp):
+        k = sp["k"]
+        if k == "record" and sp.get("contents") and sp["n"] >= 1:
+            sites.append(("short_field", sp))
+        if k in ("listoffset", "list") and sp.get("param") in ("string", "bytestring"):
+            sites.append(("string_content_not_numpy", sp))
+        if k == "bytemasked" and sp["n"] >= 1:
+            sites.append(("short_mask", sp))
+        if k == "regular" and sp.get("size", 0) >= 1 and sp["n"] >= 1:
+            sites.append(("short_regular_content", sp))
+        if k == "indexed" and sp["n"] >= 1:
+            sites.append(("short_indexed_content", sp))
+        for c in ([sp["content"]] if "content" in sp else sp.get("contents", [])):
+            walk(c)
+    walk(d)
+    if not sites:
+        return None
+    kind, sp = r.choice(sites)
+
+    def shorter(c, by):
+        # the same node with fewer items (only for node kinds whose length is a plain count)
+        c = copy.deepcopy(c)
+        if c["k"] == "numpy":
+            c["shape"] = [max(0, c["shape"][0] - by)] + c["shape"][1:]
+            return c
+        if "n" in c and c["k"] in ("listoffset", "list", "indexed", "bytemasked", "bitmasked", "unmasked", "regular", "record", "union"):
+            c["n"] = max(0, c["n"] - by)
+            return c
+        return None
+    if kind == "short_field":
+        i = r.randrange(len(sp["contents"]))
+        c = shorter(sp["contents"][i], r.choice([1, 1, 2, sp["n"]]))
+        if c is None:
+            return None
+        sp["contents"][i] = c
+    elif kind == "string_content_not_numpy":
+        c = sp["content"]
+        m = spec_len(c)
+        sp["content"] = {"k": "indexed", "option": False, "index": {"d": list(range(m)), "off": 0, "f": "i64"}, "n": m,
+                         "content": c, "param": c.get("param")}
+    elif kind == "short_mask":
+        sp["mask"] = dict(sp["mask"])
+        keep = max(0, sp["n"] - r.choice([1, 2, sp["n"]]))
+        sp["mask"]["d"] = sp["mask"]["d"][:sp["mask"]["off"] + keep]
+        sp["mask_len"] = keep
+    elif kind in ("short_regular_content", "short_indexed_content"):
+        c = shorter(sp["content"], r.choice([1, 2]))
+        if c is None:
+            return None
+        sp["content"] = c
+    return d, kind
 
 
 def drop_reordered(spec):
